@@ -71,6 +71,22 @@ theorem gatedAt_none (fields : List (FInfo × Shape)) (hwf : fieldsWF fields) (f
     subst this
     simp [hg] at hp
 
+/-- the head field's result in `Spec.completeFields` -/
+def headRes (o : Oracle) (ty : String) (fj : FInfo) (shj : Shape) (p : Path) : Option Out × St :=
+  if fj.name == "__typename" then (some (Out.leaf (quoteTypename ty)), ({} : St))
+  else Spec.completeField o fj shj (p ++ [.key fj.alias])
+
+theorem completeFields_cons (o : Oracle) (ty : String) (fj : FInfo) (shj : Shape)
+    (rest : List (FInfo × Shape)) (p : Path) :
+    Spec.completeFields o ty ((fj, shj) :: rest) p =
+      (match (headRes o ty fj shj p).1, (Spec.completeFields o ty rest p).1 with
+        | some x, some xs => some ((fj.alias, x) :: xs)
+        | _, _ => none,
+       (headRes o ty fj shj p).2.append (Spec.completeFields o ty rest p).2) := by
+  unfold headRes
+  rw [Spec.completeFields]
+  rfl
+
 /-- in a selection set whose gated fields fail with the gate's error, every gated field is null (or
     nulls the set) and its error is reported at its path -/
 theorem spec_fields_gated (o : Oracle) (ty : String) (p : Path) :
@@ -83,32 +99,37 @@ theorem spec_fields_gated (o : Oracle) (ty : String) (p : Path) :
         (sh.nn = true → (Spec.completeFields o ty fields p).1 = none)
   | [], _, _, _, hm, _ => by simp at hm
   | (fj, shj) :: rest, hall, fi, sh, hm, hg => by
-    simp only [Spec.completeFields]
+    rw [completeFields_cons]
     rcases List.mem_cons.mp hm with heq | hrest
     · cases heq
-      have hh := hall (fi, sh) (by simp) hg
-      rw [gated_ne_typename hg]
-      simp only [Bool.false_eq_true, if_false, spec_gated_field o fi sh _ _ hh.1 hh.2]
+      have hh := hall (fj, shj) (by simp) hg
+      have hr : headRes o ty fj shj p =
+          (Spec.failed shj.nn, eff [⟨p ++ [.key fj.alias], gateMsg fj.name⟩]
+            [(pathStr (p ++ [.key fj.alias]), "resolver")]) := by
+        unfold headRes
+        rw [gated_ne_typename hg]
+        simp only [Bool.false_eq_true, if_false]
+        exact spec_gated_field o fj shj _ _ hh.1 hh.2
+      rw [hr]
       refine ⟨by simp, ?_, ?_⟩
       · intro os hos
-        cases hnn : sh.nn <;> cases hrs : (Spec.completeFields o ty rest p).1 <;>
+        cases hnn : shj.nn <;> cases hrs : (Spec.completeFields o ty rest p).1 <;>
           simp [Spec.failed, hnn, hrs] at hos
         subst hos; simp
       · intro hnn
         simp [Spec.failed, hnn]
     · have ih := spec_fields_gated o ty p rest (fun f hf => hall f (by simp [hf])) fi sh hrest hg
       obtain ⟨i1, i2, i3⟩ := ih
+      generalize headRes o ty fj shj p = r1
+      obtain ⟨r11, r12⟩ := r1
       refine ⟨by simp [i1], ?_, ?_⟩
       · intro os hos
-        cases hr1 : (if (fj.name == "__typename") = true then (some (Out.leaf (quoteTypename ty)), ({} : St))
-            else Spec.completeField o fj shj (p ++ [Seg.key fj.alias])).1 <;>
-          cases hrs : (Spec.completeFields o ty rest p).1 <;> simp [hr1, hrs] at hos
+        cases r11 <;> cases hrs : (Spec.completeFields o ty rest p).1 <;> simp [hrs] at hos
         subst hos
         exact List.mem_cons_of_mem _ (i2 _ hrs)
       · intro hnn
         rw [i3 hnn]
-        cases (if (fj.name == "__typename") = true then (some (Out.leaf (quoteTypename ty)), ({} : St))
-            else Spec.completeField o fj shj (p ++ [Seg.key fj.alias])).1 <;> rfl
+        cases r11 <;> rfl
 
 theorem gatedNoDirs_mem {fields : List (FInfo × Shape)} (h : gatedNoDirs fields = true)
     {f : FInfo × Shape} (hf : f ∈ fields) (hg : isGated f.1.name = true) : f.1.dirs = [] := by
